@@ -11,7 +11,9 @@ PROPS = {
                  rule="implementation-driven random gate-level histories of one ConcurrentQueue (limit in {-1,0,1,2,3,4}, 0-3 initial "
                       "elements; Enqueue calls with 0-4 jobs parked before their section, WaitIdle with nil/buffered errCh, WatchState with "
                       "scripted callback outcomes, sections of producers / waiters / executeJob goroutines one at a time in any order, job "
-                      "returns at any time, cancellations, errCh sends/closes) + corpus; distinct = distinct (config, event sequence); "
+                      "returns at any time, cancellations, errCh sends/closes; the contexts of the WaitIdle / WatchState calls are plain / ending like a "
+                      "deadline / cancelled with a cause in turn (harness/hctx; return codes distinguish context.Canceled, context.DeadlineExceeded, the "
+                      "cause, the given error, any other error)) + corpus (incl. Enqueue on an unlimited queue while jobs are executing); distinct = distinct (config, event sequence); "
                       "non-trivial = at least 8 events"),
         ],
         trusted=SCHED_TRUSTED + [
@@ -25,12 +27,16 @@ PROPS = {
             "harness (Go would choose at random, which is not replayable)",
             "liveness stated as quiescence safety: no WaitIdle is blocked in a state without enabled internal steps while nothing is running or queued; "
             "termination of internal steps is argued (every section moves its actor forward), not a theorem",
+            "clause 5 reads 'queued > 0 only if running equals the limit' for every limit including unlimited: a queue without limit (maxConcurrency <= 0) has no "
+            "limit that running could equal, so a reported pair with queued > 0 is a violation there (the code starts every job at once and never reports one)",
+            "the property text does not name the error WaitIdle / WatchState return for an ended context (the code returns the literal context.Canceled): a "
+            "different identity is a correspondence mismatch (return codes 11 / 12 / 13), not a monitor clause",
             "nil job functions are not generated (executeJob skips them; the property speaks about jobs that run)",
         ],
         meta=dict(
             text="Coq theorems over ALL event lists and all configurations (limit incl. unlimited, initial elements) of a gate-level interleaving model of "
                  "conc.ConcurrentQueue: counting invariant => running <= limit, goroutines inside job functions <= running, every enqueued job is in exactly "
-                 "one of queued / executing (one goroutine) / finished once, limit 1 => entry log ++ queue = enqueue order, queued > 0 => running = limit "
+                 "one of queued / executing (one goroutine) / finished once, limit 1 => entry log ++ queue = enqueue order, queued > 0 => there is a limit and running = limit "
                  "(state, Enqueue results, WatchState arguments), WaitIdle nil => every job enqueued before the call has returned, no lost wake-up => no "
                  "WaitIdle blocked at an idle quiescent state, jobQueueSize = queue length. Model tied to the code by scheduled differential correspondence: "
                  "the harness drives the real queue one critical section at a time (synctest) and the extracted model must produce the same status vectors, "
